@@ -43,6 +43,12 @@ func (b Base) RenderParam(e *expr.Expression) (s string, params []any, err error
 		return "", params, nil
 	}
 
+	// an unbounded range end (a bare *) is not a value: it is kept in the text as '*' so that
+	// rangParam can see it; every other string, including a quoted "*", travels as a parameter.
+	if s, isStr := e.Left.(string); isStr && s == "*" && e.Op == expr.Wild {
+		return "'*'", params, nil
+	}
+
 	left, lparams, err := b.serializeParams(e.Left)
 	if err != nil {
 		return s, params, err
@@ -262,12 +268,6 @@ func (b Base) serializeParams(in any) (s string, params []any, err error) {
 		// which might change in the future.
 		return fmt.Sprintf(`"%s"`, string(v)), params, nil
 	case string:
-		// if we have a '*' then we don't want to insert a param
-		if v == "*" {
-			return "'*'", params, nil
-		}
-
-		// escape single quotes with double single quotes
 		return "?", []any{v}, nil
 	default:
 		return "?", []any{v}, nil
